@@ -148,6 +148,17 @@ func (p *Packer) Pack(src string, w io.Writer) (*Meta, error) {
 	// A trailing separator would make Lstat look through a symlink, and we
 	// would end up walking the link instead of the directory it names.
 	if src != "" {
+		// Cleaning the path resolves ".." as text, which names another
+		// directory when the segment before it is a symlink. Such a path is
+		// first resolved the way the operating system reads it.
+		for _, seg := range strings.Split(filepath.ToSlash(src), "/") {
+			if seg == ".." {
+				if real, err := filepath.EvalSymlinks(src); err == nil {
+					src = real
+				}
+				break
+			}
+		}
 		src = filepath.Clean(src)
 	}
 
